@@ -504,6 +504,41 @@ class NumGen:
             return r.choice(['0', '1', '2', '3', '0.5', '-1', '-0.0', '4', '0.25', '-2.5', '7'])
         op = r.choice(['+', '-', '*', '+', '*', 'neg', 'abs', 'round', 'min', 'max', 'ifexpr', 'fma', 'floor', 'div'])
         a = lambda: self.expr(vars_, d - 1)
+        if r.random() < 0.18:
+            # the other numeric builtins: every one has a transfer function in FormatInfer (or falls back to the context's format)
+            x = r.choice(['sqrt', 'cbrt', 'fmod', 'remainder', 'mod', 'copysign', 'fdim', 'hypot', 'powop', 'pow', 'roundint', 'nearbyint', 'nan', 'inf',
+                          'logb', 'round_at', 'cast', 'sum', 'len', 'exp', 'log', 'sin', 'atan2', 'const', 'fmin', 'signsel', 'suml'])
+            ra = lambda: f'fp.round({a()})'
+            if x in ('sqrt', 'cbrt', 'roundint', 'nearbyint', 'logb', 'exp', 'log', 'sin'):
+                return f'fp.{x}({ra()})'
+            if x in ('fmod', 'remainder', 'copysign', 'fdim', 'hypot', 'atan2'):
+                return f'fp.{x}({ra()}, {ra()})'
+            if x == 'fmin':
+                return f'fp.{r.choice(["fmin", "fmax"])}({a()}, {a()})'
+            if x == 'mod':
+                return f'({ra()} % {ra()})'
+            if x == 'powop':
+                return f'({ra()} ** {r.choice(["2", "3", "0", "-1"])})'
+            if x == 'pow':
+                return f'fp.pow({ra()}, {r.choice(["2", "0.5", "-1", a()])})'
+            if x == 'nan':
+                return 'fp.nan()'
+            if x == 'inf':
+                return r.choice(['fp.inf()', '(-fp.inf())'])
+            if x == 'round_at':
+                return f'fp.round_at({a()}, {r.choice(["-1", "0", "1", "-2"])})'
+            if x == 'cast':
+                return f'fp.round_exact(fp.round({a()}))'
+            if x == 'sum':
+                return f'sum([{a()}, {a()}, {a()}])'
+            if x == 'suml':
+                return r.choice(['sum(xs)', 'max(xs)', 'min(xs)', 'xs[0]'])
+            if x == 'len':
+                return 'len(xs)'
+            if x == 'const':
+                return r.choice(['fp.const_pi()', 'fp.const_e()', 'fp.const_sqrt2()'])
+            if x == 'signsel':
+                return f'({a()} if fp.signbit({a()}) else {a()})'
         if op in '+-*':
             return f'({a()} {op} {a()})'
         if op == 'neg':
